@@ -380,7 +380,7 @@ func rulesAbstractC(carrier, kind string, v reflect.Value, rules string, rng *ra
 
 // ------------------------------------------------------------------ abstraction of the error
 
-var rulesTokRe = regexp.MustCompile(`explain: (tk[0-9]+) ?$`)
+var rulesTokRe = regexp.MustCompile(`explain: (?:n=1 )?(tk[0-9]+) ?$`)
 
 type rulesObs struct {
 	Verdict string   `json:"verdict"` // "0" no clause, "1" only rule clauses, "E" some other error text, "P" panic
@@ -966,8 +966,11 @@ func rulesAgree(args []string) error {
 		for i := 0; i < nrules; i++ {
 			tok := "tk" + strconv.Itoa(i)
 			msg := tok
-			if rng.Intn(3) == 0 {
+			switch rng.Intn(4) {
+			case 0:
 				msg = tok + " " // a message (hence a rule text) that ends in a blank: no carrier may trim it
+			case 1:
+				msg = "n=1 " + tok // a message that contains the connector '=': it stays part of the message
 			}
 			if rng.Intn(2) == 0 || (class != "string" && rng.Intn(3) > 0) {
 				rule := rulesIntervalRules[rng.Intn(len(rulesIntervalRules))]
